@@ -58,6 +58,21 @@ def _pack(singles, n, kind):
             cases.append({'outer': [c[0] for c in chunk], 'inner': [c[1] for c in chunk], 'kind': kind})
     return cases
 
+def _long_history(rng):
+    """a long run: frame numbers beyond 16-bit range, few changes, some of them late"""
+    T = rng.choice([70000, 66000, 131100])
+    outer = []
+    for _a in range(2):
+        times = sorted(set([rng.randrange(T - 1) for _ in range(6)] + [T - 2, 32767, 32768, 65535, 65536, T - 70]))
+        o, cur, k = [], rng.randint(0, 2), 0
+        for t in range(T):
+            o.append(cur)
+            if k < len(times) and t == times[k]:
+                cur = rng.choice([v for v in (-1, 0, 1, 2) if v != cur])
+                k += 1
+        outer.append(o)
+    return outer, [list(o) for o in outer]
+
 
 def gen_cases(rng, tier):
     cases = []
@@ -94,6 +109,9 @@ def gen_cases(rng, tier):
             outer.append(o)
             inner.append(i)
         cases.append({'outer': outer, 'inner': inner, 'kind': 'random'})
+    for _ in range({'quick': 1, 'thorough': 3, 'search': 1}.get(tier, 1)):
+        o, i = _long_history(rng)
+        cases.append({'outer': o, 'inner': i, 'kind': 'long'})
     # cases in which nothing changes cannot build an event table at all; drop them
     cases = [c for c in cases if any(len(set(zip(o, i))) > 1 for o, i in zip(c['outer'], c['inner']))]
     return cases
@@ -168,8 +186,8 @@ def oracle(case, out):
 
 
 def coq_term(case, out):
-    if 'runs' not in out:
-        return None
+    if 'runs' not in out or case.get('kind') == 'long':
+        return None          # long runs: oracle only
     atoms = clist(f'({zlist(o)}, {zlist(i)})' for o, i in zip(case['outer'], case['inner']))
     runs = clist(f'({z(mr)}, {clist("J " + " ".join(z(v) for v in r) for r in out["runs"][str(mr)])})' for mr in MRS)
     return f'({atoms}, {runs})'
@@ -191,4 +209,4 @@ def classify(case, out):
 
 
 def sample(case, out):
-    return {'outer': case['outer'][:2], 'inner': case['inner'][:2], 'jumps_mr0': out.get('runs', {}).get('0', [])[:5]}
+    return {'outer': [o[:40] for o in case['outer'][:2]], 'inner': [i[:40] for i in case['inner'][:2]], 'jumps_mr0': out.get('runs', {}).get('0', [])[:5]}
